@@ -990,10 +990,15 @@ fn compaction_check(quick: bool) -> Check {
         s.ev(Event::Restart(3));
         true
     }) {
+        // the menu's counters include the prefix (its ticks, writes and the crash of node 3)
+        let mut m = menu.clone();
+        m.max_ticks = p.iter().filter(|e| matches!(e, Event::Tick)).count() + if quick { 2 } else { 3 };
+        m.max_writes = 4 + 1;
+        m.max_crashes = 1 + 1;
         runs.push(RunSpec {
             name: "3v-node3-far-behind-snapshot-and-purge-timing-explored".into(),
             opts: opts.clone(),
-            menu: menu.clone(),
+            menu: m,
             prefix: p,
             max_depth: if quick { 10 } else { 13 },
             max_devs: if quick { 2 } else { 3 },
@@ -1013,7 +1018,10 @@ fn compaction_check(quick: bool) -> Check {
         true
     }) {
         let mut m = menu.clone();
-        m.max_snapshots = 1;
+        m.max_snapshots = 1 + 1;
+        m.max_ticks = p.iter().filter(|e| matches!(e, Event::Tick)).count() + if quick { 2 } else { 3 };
+        m.max_writes = 4 + 1;
+        m.max_crashes = 1 + 1;
         runs.push(RunSpec {
             name: "3v-leader-purged-node3-below-the-boundary-returns".into(),
             opts: opts.clone(),
